@@ -438,7 +438,13 @@ def build_automaton(aut):
         else:
             op = [(int(o), c) for o, c in opics]
         if isinstance(active, list):
-            act = (lambda i, tab=list(active): bool(tab[i]))
+            if eid % 2 == 1:
+                # activity read from a boolean mask array (round 9): the callable returns numpy.bool_, which is falsy / truthy
+                # but not the object False / True -- the documented type is "bool", a mask lookup is the realistic way to get one
+                import numpy as _np
+                act = (lambda i, tab=_np.array([bool(x) for x in active], dtype=bool): tab[i])
+            else:
+                act = (lambda i, tab=list(active): bool(tab[i]))
         else:
             act = bool(active)
         a.add_connect_edge(AutOpEdge(eid, [n0, n1], op, act))
